@@ -9,6 +9,7 @@ import (
 	"verifharness/internal/fw"
 	"verifharness/internal/gen"
 	"verifharness/internal/model"
+	"verifharness/internal/proc"
 	"verifharness/internal/proto"
 	"verifharness/internal/ref"
 )
@@ -570,7 +571,9 @@ func C08(c *fw.Ctx) {
 		"annotation, parenthesis and body lines, quoting of bare parameters, '//' <-> '/* */' annotations, implicit -> explicit context " +
 		"(validated with the reference automaton); quick: up to 3 sampled sites per rewrite kind and document, thorough: every legal site once; " +
 		"compositions: 3 / 12 per document of 2-6 single-site rewrites on different lines applied together, with re-indentation and a " +
-		"line-ending change on top (for rejected originals only verdict and error class are compared); " +
+		"line-ending change on top (for rejected originals only verdict and error class are compared); layout pairs: 250 / 6000 abstract " +
+		"models rendered plainly and in 11 layouts that differ from the plain one in exactly one dimension (where a blank, a comment, a " +
+		"quote or a parenthesis goes is decided there by the renderer, not by the scanner under test) - equal catalogs; " +
 		"legal sites come from the public lexeme stream; oracle: accepted stays accepted with an equal catalog (CR/CRLF in string values " +
 		"normalised), rejected stays rejected with the same error class and the error line moves with the text; distinct = distinct rewritten " +
 		"documents; non-trivial = every rewrite that changed the bytes")
@@ -718,7 +721,115 @@ func C08(c *fw.Ctx) {
 			c.Sample(map[string]interface{}{"document": d.name, "rewrite": rw.kind, "site": rw.site, "rewritten": sampleDoc(rw.content)})
 		}
 	})
+	c08LayoutPairs(c, pool)
 	c.Finish()
+}
+
+// c08LayoutPairs: the same abstract model written by the renderer in a plain layout and in layouts that differ from it in exactly
+// one dimension. Where a rewrite may be applied is decided here by the renderer, not by the scanner under test.
+func c08LayoutPairs(c *fw.Ctx, pool *proc.Pool) {
+	type variant struct {
+		dim string
+		set func(l *model.Layout)
+	}
+	variants := []variant{
+		{"eol-crlf", func(l *model.Layout) { l.EOL = "\r\n" }}, {"eol-cr", func(l *model.Layout) { l.EOL = "\r" }},
+		{"indent-4", func(l *model.Layout) { l.Unit = "    " }}, {"indent-tab", func(l *model.Layout) { l.Unit = "\t" }}, {"indent-none", func(l *model.Layout) { l.FlatIndent = true; l.ExplicitP = 100 }},
+		{"comments", func(l *model.Layout) { l.Comments = true }}, {"trailing-blanks", func(l *model.Layout) { l.Trailing = true }},
+		{"quote-all", func(l *model.Layout) { l.QuoteAll = true }}, {"block-annotations", func(l *model.Layout) { l.BlockAnn = true }},
+		{"explicit-contexts", func(l *model.Layout) { l.ExplicitP = 100 }}, {"explicit-some", func(l *model.Layout) { l.ExplicitP = 50 }},
+	}
+	type pairState struct {
+		base     *proto.Result
+		baseDoc  []byte
+		variants map[string]*proto.Result
+		docs     map[string][]byte
+	}
+	states := map[string]*pairState{}
+	judge := func(id string, st *pairState, dim string, res *proto.Result) {
+		rp := &fw.Replay{Jobs: []*proto.Job{{ID: "plain", Root: "root.jst", Files: map[string][]byte{"root.jst": st.baseDoc}, InMemory: true, Ops: []string{"json"}},
+			{ID: dim, Root: "root.jst", Files: map[string][]byte{"root.jst": st.docs[dim]}, InMemory: true, Ops: []string{"json"}}}, Results: []interface{}{st.base, res},
+			Expected: map[string]interface{}{"model": id, "dimension": dim}}
+		c.Inc("layout_pairs", dim, 1)
+		for _, r := range []*proto.Result{st.base, res} {
+			if sig, what := crashSig(r); sig != "" {
+				c.Violate(sig, what, rp)
+				return
+			}
+		}
+		if !st.base.Accepted {
+			return // judged by C02
+		}
+		if !res.Accepted {
+			c.Violate("accepted-becomes-rejected:layout-pair:"+dim, fmt.Sprintf("model %s: the plain rendering is accepted, the one that differs in %s is rejected: %q at line %d", id, dim, res.Err.Msg, res.Err.Line), rp)
+			return
+		}
+		a, b := findOut(st.base, "json"), findOut(res, "json")
+		if a == nil || b == nil || a.Bytes == nil || b.Bytes == nil {
+			return
+		}
+		na, e1 := normJSON(a.Bytes)
+		nb, e2 := normJSON(b.Bytes)
+		if e1 != nil || e2 != nil || na == nb {
+			return
+		}
+		if exampleOnlyDiff(a.Bytes, b.Bytes, map[string][]byte{"root.jst": st.baseDoc}) {
+			c.Violate("catalog-changed:"+sigRegexExample, "layout pair: only regex-type examples differ", rp)
+			return
+		}
+		c.Violate("catalog-changed:layout-pair:"+dim, fmt.Sprintf("model %s rendered with %s gives another catalog than the plain rendering: %s", id, dim, firstDiff(na, nb)), rp)
+	}
+	c.RunJobs(pool, func(emit func(*proto.Job)) {
+		r := gen.Rng(c.Seed, c.ID, "pair-models")
+		for i := 0; i < c.Pick(250, 6000); i++ {
+			m := model.Generate(r, model.QuickSize)
+			id := fmt.Sprintf("%d", i)
+			base := model.PlainLayout()
+			base.R = gen.Rng(c.Seed, c.ID, "pair-structure", id)
+			rd := m.Render(base)
+			st := &pairState{baseDoc: rd.Files[rd.Root], variants: map[string]*proto.Result{}, docs: map[string][]byte{}}
+			var jobs []*proto.Job
+			for _, v := range variants {
+				l := model.PlainLayout()
+				v.set(l)
+				l.R = gen.Rng(c.Seed, c.ID, "pair-structure", id)
+				rv := m.Render(l)
+				st.docs[v.dim] = rv.Files[rv.Root]
+				jobs = append(jobs, &proto.Job{ID: "pairv/" + id + "/" + v.dim, Root: "root.jst", Files: map[string][]byte{"root.jst": rv.Files[rv.Root]}, InMemory: true, Ops: []string{"json"}})
+			}
+			maxMuLock.Lock()
+			states[id] = st
+			maxMuLock.Unlock()
+			emit(&proto.Job{ID: "pairb/" + id, Root: "root.jst", Files: map[string][]byte{"root.jst": st.baseDoc}, InMemory: true, Ops: []string{"json"}})
+			for _, j := range jobs {
+				emit(j)
+			}
+		}
+	}, func(j *proto.Job, res *proto.Result) {
+		if workerProblem(c, res) {
+			return
+		}
+		parts := strings.SplitN(j.ID, "/", 3)
+		maxMuLock.Lock()
+		st := states[parts[1]]
+		ready := map[string]*proto.Result{}
+		if parts[0] == "pairb" {
+			st.base = res
+			for d, r := range st.variants {
+				ready[d] = r
+			}
+		} else {
+			st.variants[parts[2]] = res
+			if st.base != nil {
+				ready[parts[2]] = res
+			}
+		}
+		maxMuLock.Unlock()
+		c.Count(jobKey(j), true)
+		for d, r := range ready {
+			judge(parts[1], st, d, r)
+		}
+	})
 }
 
 func firstDiff(a, b string) string {
